@@ -1279,6 +1279,14 @@ func (x *Exec) evalCall(env *specEnv, n *ast.CallExpr, hint types.Type, cl *Clau
 		return x.makeInterface(st, v, x.namedTypeMaybePtr(id.Name))
 	case "fresh":
 		need(1)
+		// the address of a field of an existing object or of a package-level variable is never a fresh allocation;
+		// the address of a local that does not escape is storage of this very call
+		switch x.eval(env, n.Args[0], nil, cl).(type) {
+		case FieldPtr, GlobalPtr:
+			return tFalse
+		case CellPtr:
+			return tTrue
+		}
 		r := arg(0, nil)
 		st.declareOnce("is_fresh", "(declare-fun is_fresh (Ref) Int)")
 		// fresh(result): allocated during the call: distinct from everything the caller had
